@@ -370,7 +370,7 @@ class Sym:
                 ops2 = []
                 for x, v in zip(r['ops'], ops):
                     if x.get('k') in ('copy', 'move') and not x['p']['pr'] and x['p']['l'] in st.mutref and st.mutref[x['p']['l']][2]:
-                        ops2.append(('mref', st.mutref[x['p']['l']][0]))
+                        ops2.append(('mref', st.mutref[x['p']['l']][0], v))
                     else:
                         ops2.append(v)
                 return ('agg', 'closure', r['closure'], ops2)
@@ -867,6 +867,9 @@ class Sym:
         if f[0] == 'agg' and f[1] == 'closure' and f[2] in facts.bodies and self.depth < 5:
             cb = facts.bodies[f[2]]
             if len(argv) == cb.j['arg_count'] - 1:
+                # the body runs in a frame of its own: a capture of `&mut <local of this frame>` is passed as the plain reference
+                if isinstance(f[3], list) and any(isinstance(o, tuple) and o and o[0] == 'mref' for o in f[3]):
+                    f = ('agg', 'closure', f[2], [o[2] if (isinstance(o, tuple) and o and o[0] == 'mref') else o for o in f[3]])
                 env = {1: f}
                 for i, a in enumerate(argv):
                     env[i + 2] = a
